@@ -881,6 +881,14 @@ def chk_pt(g, blob, want, what, **kw):
         raise Violation("%s: wrong point" % what, got=got, want=want, **kw)
 
 
+
+def g_stale(g):
+    """content of output points before the call: a fixed multiple of the generator that no generated case expects"""
+    if getattr(g, "_stale_pt", None) is None:
+        g._stale_pt = g.E.mul(977, g.G)
+    return g._stale_pt
+
+
 def run_mul(gname):
     def run(env, cfg, case):
         x = G.ctx_for(env, cfg, case["cid"])
@@ -914,7 +922,7 @@ def run_mul(gname):
             wants = [w]
 
         def build(p):
-            sr = g.new(p, g.G)
+            sr = g.new(p, g_stale(g))
             outs = [sr]
             ins = []
             if op in ("mul", "mul_sec", "mul_any"):
@@ -945,7 +953,7 @@ def run_mul(gname):
                 p.call("%s_mul_pre" % gname, stab, sp)
                 outs = []
                 for k in ks:
-                    so = g.new(p, g.G)
+                    so = g.new(p, g_stale(g))
                     sk = p.bn(k)
                     p.call(fn, so, stab, sk)
                     outs.append(so)
